@@ -52,6 +52,11 @@ def gen(tier, rng):
         ("U16x3", 300, 300, 140, 300 - 40, (80, 80, 440, 520), "conv", "Lanczos3"),    # vertical-only? (height = crop height): horizontal only
         ("U8", 300, 300, 300 - 60, 150, (120, 80, 480, 440), "conv", "Hamming"),        # width = crop width: vertical only with column offset 60
         ("U8x4", 200, 400, 140, 200, (120, 200, 280, 400), "ss", "Bilinear"),
+        # alpha types whose horizontal pass reads the premultiplied buffer with a row offset (crop top far below the kernel reach):
+        # non-u8 two-pass, and u8 with the height unchanged (horizontal only)
+        ("U16x4", 200, 260, 120, 100, (40, 160, 300, 300), "conv", "Bilinear"), ("F32x2", 220, 240, 100, 90, (60, 200, 240, 200), "conv", "CatmullRom"),
+        ("U8x4", 240, 300, 120, 130, (80, 180, 300, 260), "conv", "Lanczos3"), ("U8x2", 200, 300, 90, 100, (40, 200, 260, 200), "interp", "Bilinear"),
+        ("U16x2", 300, 200, 150, 110, (100, 60, 400, 300), "conv", "Lanczos3"),
     ]
     for (pt, sw, sh, dw, dh, box, alg, flt) in crop_shapes:
         for alpha in ((True, False) if rz.PT[pt]["alpha"] else (False,)):
